@@ -10,6 +10,7 @@ import Blue.Proofs.FsyncCore
 import Blue.Proofs.Wcq
 import Blue.Proofs.WcqV
 import Blue.Proofs.ConcLog
+import Blue.Proofs.ConcLogQueues
 import Blue.Proofs.Crc32c
 import Blue.Proofs.ConstsTieC12
 import Blue.Driver.C12
@@ -17,7 +18,7 @@ import Blue.Driver.C12
     concurrent appends are durable before return and appear exactly once, whole
 
 Property theorems only (the proofs live in `Blue/Proofs/{Log,LogAny,LogHeader,LogTrunc,LogDamage,
-LogCrash,LogCrashAny,LogCut,FsyncCore,Wcq,WcqV,ConcLog}.lean`).  The model (`Blue/Model/Log.lean`) is the writer `_append` /
+LogCrash,LogCrashAny,LogCut,FsyncCore,Wcq,WcqV,ConcLog,ConcLogQueues}.lean`).  The model (`Blue/Model/Log.lean`) is the writer `_append` /
 `append_split` / `true_up` and the reader `next_header` / `next_frame` / `next` of `sst/src/log.rs`
 over a parameter set `P` (block size, `HEADER_MAX_SIZE`, `TABLE_FULL_SIZE`, header codec, checksum).
 The reader's `true_up` reads the bytes it skips and refuses anything but the writer's zero padding
@@ -47,12 +48,20 @@ not-yet-synced bytes surviving, the iterator delivers exactly a prefix of the li
 contains it; `conc_log_failed_sync_not_acked`: the members of a failed call get the error, nobody is
 answered twice, a later successful call does not acknowledge them.
 
-What remains NOT a theorem: (i) the two `WorkCoalescingQueue`s enter `Blue.ConcLog` through their
-SPEC (a batch is the next `n ≥ 1` inputs in link order, none twice, none skipped, one batch inside
-`work` at a time, every member is handed the output `work` produced for it) — that spec is what
-`core_sees_inputs_once_in_order_v` / `own_result_v` / `queue_never_panics` prove of the wake-up
-protocol model `Blue.WcqV`, but `Blue.ConcLog` does not contain `Blue.WcqV` as a sub-machine (no
-refinement theorem between the two); (ii) a failing `write`/`flush` (every member gets the `Err`;
+The two `WorkCoalescingQueue`s enter `Blue.ConcLog` through their SPEC (a batch is the next `n ≥ 1`
+inputs in link order, none twice, none skipped, one batch inside `work` at a time, every member is
+handed the output `work` produced for it).  Block `ConcLogQueues` closes the gap to the wake-up
+protocol model `Blue.WcqV`: `wcqv_run_meets_spec` (every run of `Blue.WcqV` satisfies `QueueSpec`, the
+batches being the accepted `lead` events of the run) and `conclog_of_two_wcqv_runs` /
+`queue_returns_are_conclog_answers` (a `Blue.WcqV` run of the write queue and one of the fsync queue
+give a `Blue.ConcLog` event list with exactly their batches as `groups` / fsync rounds and the two
+cores' outputs as `wrets` / `answers`, and what the `do_work` calls return in the wake-up models is
+what that run answers).  The embedding is at the level of results (batches, answers, file), for one
+serialisation (all writes before all fsync rounds; that batches and answers do not depend on that
+choice is argued in the file, not proved), not an event-by-event simulation of the interleaved protocol steps of both queues.
+
+What remains NOT a theorem: (i) a step-by-step simulation between `Blue.WcqV` × `Blue.WcqV` and
+`Blue.ConcLog` (the embedding above is at the level of results); (ii) a failing `write`/`flush` (every member gets the `Err`;
 `self.written` has already advanced), `table_full`/`rollover_size`, and `ConcurrentLogBuilder::fsync()`
 (an entry `0` in the fsync queue) are not in `Blue.ConcLog`; (iii) the composed model is replayed
 by the driver as a whole (request `conclog`, `Blue.Driver.C12.handleConc`: an event list rebuilt from
@@ -557,6 +566,135 @@ example : Blue.ConcLog.acked (Blue.ConcLog.run toyParams 12 concToyRun) 2 = fals
   (conc_log_failed_sync_not_acked (P := toyParams) (lim := 12) concToyRun).2.1 2 (by decide)
 -- END ConcLog
 
+-- BEGIN ConcLogQueues
+/-! ## the wake-up model of the queues is a sub-machine of the composed log (`Blue/Proofs/ConcLogQueues.lean`)
+
+`Blue.ConcLogQueues.batches evs init`: the batches `(first caller, size)` the core is handed in the
+run `evs` of `Blue.WcqV` (the accepted `lead` events); `Chain 0 bs t`: non-empty, consecutive, from
+caller `0` to `t`; `QueueSpec linked bs taken out ret`: what `Blue.ConcLog.step` assumes of a queue
+(`write n` / `fenter n` take `(… .drop taken).take n`, `n ≥ 1`, within the linked callers; every member
+is answered the core's output for it). -/
+
+/-- every run of the wake-up model — any interleaving, any batch sizes (any `can_batch`), any outputs —
+    meets the SPEC; the core's flat log is the batches end to end; no panic -/
+theorem wcqv_run_meets_spec (evs : List Blue.WcqV.Ev) :
+    let s := evs.foldl Blue.WcqV.step Blue.WcqV.init
+    Blue.ConcLogQueues.QueueSpec s.ents.length (Blue.ConcLogQueues.batches evs Blue.WcqV.init) s.log.length
+        (Blue.WcqV.look s.prod) (Blue.ConcLogQueues.retOf s)
+      ∧ s.log = List.range s.log.length ∧ s.panicked = false :=
+  Blue.ConcLogQueues.wcqv_run_meets_spec evs
+
+/-- at most one batch inside `work`: a batch is handed over only when nobody works, and sets the flag -/
+theorem wcqv_one_batch_at_a_time (s : Blue.WcqV.St) (e : Blue.WcqV.Ev) (h : Blue.ConcLogQueues.batchOf s e ≠ []) :
+    s.doingWork = false ∧ (Blue.WcqV.step s e).doingWork = true :=
+  Blue.ConcLogQueues.wcqv_one_batch_at_a_time s e h
+
+/-- … and only the leader's `finish` clears it -/
+theorem wcqv_work_cleared_only_by_finish (s : Blue.WcqV.St) (e : Blue.WcqV.Ev) (h1 : s.doingWork = true)
+    (h2 : (Blue.WcqV.step s e).doingWork = false) : ∃ i, e = .finish i :=
+  Blue.ConcLogQueues.work_cleared_only_by_finish s e h1 h2
+
+/-- a run WITH a given core (every delivery carries `coreOut`) returns `coreOut` to every caller -/
+theorem wcqv_returns_core_output (evs : List Blue.WcqV.Ev) (coreOut : Nat → Option Nat)
+    (hcore : ∀ e ∈ (evs.foldl Blue.WcqV.step Blue.WcqV.init).prod, coreOut e.1 = some e.2) (c o : Nat)
+    (hr : Blue.ConcLogQueues.retOf (evs.foldl Blue.WcqV.step Blue.WcqV.init) c = some o) : coreOut c = some o :=
+  Blue.ConcLogQueues.wcqv_returns_core_output evs coreOut hcore c o hr
+
+/-- **the embedding**: a wake-up-model run of the write queue over `bufs` and one of the fsync queue
+    over `perm` (fsync caller `q` = write caller `perm[q]`), with `oks r` the result of the `fdatasync`
+    of fsync round `r`, are a `Blue.ConcLog` run (`queueEvents`) with their batches and the two cores'
+    answers; its file is the sequential log of the merged write batches -/
+theorem conclog_of_two_wcqv_runs {P : Params} {lim : Nat} (g : Good P) (hlim : lim ≤ P.tableFull)
+    (evsW evsF : List Blue.WcqV.Ev) (bufs : List (List Nat)) (perm : List Nat) (oks : Nat → Bool)
+    (hlen : bufs.length = (evsW.foldl Blue.WcqV.step Blue.WcqV.init).ents.length)
+    (hb : ∀ b ∈ bufs, 0 < b.length ∧ b.length ≤ lim)
+    (hcb : ∀ b ∈ Blue.ConcLogQueues.batches evsW Blue.WcqV.init, (Blue.ConcLogQueues.groupOf bufs b).flatten.length ≤ lim)
+    (hplen : perm.length = (evsF.foldl Blue.WcqV.step Blue.WcqV.init).ents.length)
+    (hpn : perm.Nodup)
+    (hpw : ∀ c ∈ perm, c < (evsW.foldl Blue.WcqV.step Blue.WcqV.init).log.length) :
+    let bsW := Blue.ConcLogQueues.batches evsW Blue.WcqV.init
+    let bsF := Blue.ConcLogQueues.batches evsF Blue.WcqV.init
+    let s := Blue.ConcLog.run P lim (Blue.ConcLogQueues.queueEvents bufs bsW perm bsF oks)
+    s.bufs = bufs
+      ∧ s.groups = bsW.map (Blue.ConcLogQueues.groupOf bufs)
+      ∧ s.wrets = Blue.ConcLogQueues.wretsOf bufs bsW 0 0
+      ∧ s.fq = Blue.ConcLogQueues.fqOf s.wrets perm
+      ∧ s.ftaken = (evsF.foldl Blue.WcqV.step Blue.WcqV.init).log.length
+      ∧ s.answers = Blue.ConcLogQueues.ansOf s.fq oks bsF 0 0
+      ∧ Blue.LogCrash.crashA s.file = writeAll P (bsW.map (fun b => (Blue.ConcLogQueues.groupOf bufs b).flatten)) 0
+      ∧ readAll P (Blue.LogCrash.crashA s.file) (bsW.length + 1) 0
+          = some (bsW.map (fun b => (Blue.ConcLogQueues.groupOf bufs b).flatten)) :=
+  Blue.ConcLogQueues.conclog_of_two_wcqv_runs P lim g hlim evsW evsF bufs perm oks hlen hb hcb hplen hpn hpw
+
+/-- what the two `do_work` calls return in the wake-up models is what that `Blue.ConcLog` run answers -/
+theorem queue_returns_are_conclog_answers {P : Params} {lim : Nat} (g : Good P) (hlim : lim ≤ P.tableFull)
+    (evsW evsF : List Blue.WcqV.Ev) (bufs : List (List Nat)) (perm : List Nat) (oks : Nat → Bool)
+    (hlen : bufs.length = (evsW.foldl Blue.WcqV.step Blue.WcqV.init).ents.length)
+    (hb : ∀ b ∈ bufs, 0 < b.length ∧ b.length ≤ lim)
+    (hcb : ∀ b ∈ Blue.ConcLogQueues.batches evsW Blue.WcqV.init, (Blue.ConcLogQueues.groupOf bufs b).flatten.length ≤ lim)
+    (hplen : perm.length = (evsF.foldl Blue.WcqV.step Blue.WcqV.init).ents.length)
+    (hpn : perm.Nodup)
+    (hpw : ∀ c ∈ perm, c < (evsW.foldl Blue.WcqV.step Blue.WcqV.init).log.length)
+    (hcoreW : ∀ e ∈ (evsW.foldl Blue.WcqV.step Blue.WcqV.init).prod,
+      ((Blue.ConcLogQueues.wretsOf bufs (Blue.ConcLogQueues.batches evsW Blue.WcqV.init) 0 0)[e.1]?).map (·.off) = some e.2)
+    (hcoreF : ∀ e ∈ (evsF.foldl Blue.WcqV.step Blue.WcqV.init).prod,
+      ∃ p ∈ Blue.ConcLogQueues.ansOf
+          (Blue.ConcLogQueues.fqOf (Blue.ConcLogQueues.wretsOf bufs (Blue.ConcLogQueues.batches evsW Blue.WcqV.init) 0 0) perm)
+          oks (Blue.ConcLogQueues.batches evsF Blue.WcqV.init) 0 0,
+        perm[e.1]? = some p.1 ∧ p.2 = (e.2 != 0)) :
+    let s := Blue.ConcLog.run P lim (Blue.ConcLogQueues.queueEvents bufs (Blue.ConcLogQueues.batches evsW Blue.WcqV.init)
+      perm (Blue.ConcLogQueues.batches evsF Blue.WcqV.init) oks)
+    (∀ c o, Blue.ConcLogQueues.retOf (evsW.foldl Blue.WcqV.step Blue.WcqV.init) c = some o →
+        (s.wrets[c]?).map (·.off) = some o)
+      ∧ (∀ q o, Blue.ConcLogQueues.retOf (evsF.foldl Blue.WcqV.step Blue.WcqV.init) q = some o →
+          ∃ p ∈ s.answers, perm[q]? = some p.1 ∧ p.2 = (o != 0)) :=
+  Blue.ConcLogQueues.queue_returns_are_conclog_answers P lim g hlim evsW evsF bufs perm oks hlen hb hcb hplen hpn hpw
+    hcoreW hcoreF
+
+/-- the toy run of block `ConcLog` as two queue runs.  Write queue: callers 0, 1, 2 link; caller 0 leads
+    the batch [0, 1] (both answered `written = 5`; caller 1 leaves before its leader does), caller 2
+    leads [2] (answered 9).  Fsync queue, linked in the order write caller 1, 0, 2: its caller 0 (=
+    write caller 1) leads the batch [1, 0] (answered `true` = 1), its caller 2 (= write caller 2) links
+    later and leads [2]; that `fdatasync` fails (answered `false` = 0) -/
+def toyWriteQueueRun : List Blue.WcqV.Ev :=
+  [.link, .link, .link, .lead 0 2, .deliver 0 5, .deliver 0 5, .observe 1, .finish 0, .lead 2 1, .deliver 2 9, .finish 2]
+def toyFsyncQueueRun : List Blue.WcqV.Ev :=
+  [.link, .link, .lead 0 2, .deliver 0 1, .deliver 0 1, .finish 0, .observe 1, .link, .lead 2 1, .deliver 2 0, .finish 2]
+def toyBufs : List (List Nat) := [[1, 2, 3], [4, 5], [6, 7, 8, 9]]
+def toyOks : Nat → Bool := fun r => r == 0
+
+example :
+    let bsW := Blue.ConcLogQueues.batches toyWriteQueueRun Blue.WcqV.init
+    let bsF := Blue.ConcLogQueues.batches toyFsyncQueueRun Blue.WcqV.init
+    let evs := Blue.ConcLogQueues.queueEvents toyBufs bsW [1, 0, 2] bsF toyOks
+    let s := Blue.ConcLog.run toyParams 12 evs
+    bsW = [(0, 2), (2, 1)] ∧ bsF = [(0, 2), (2, 1)]
+    ∧ Blue.ConcLogQueues.Chain 0 bsW 3 ∧ Blue.ConcLogQueues.Chain 0 bsF 3
+    ∧ evs = [.link [1, 2, 3], .link [4, 5], .link [6, 7, 8, 9], .write 2, .write 1, .flink 1, .flink 0, .flink 2,
+             .fenter 2, .fret true, .fenter 1, .fret false]
+    ∧ s.groups = [[[1, 2, 3], [4, 5]], [[6, 7, 8, 9]]]
+    ∧ s.wrets = [⟨0, 5⟩, ⟨0, 5⟩, ⟨1, 9⟩]
+    ∧ s.fq = [(1, 5), (0, 5), (2, 9)]
+    ∧ s.answers = [(1, true), (0, true), (2, false)]
+    ∧ (List.range 3).map (Blue.ConcLogQueues.retOf (toyWriteQueueRun.foldl Blue.WcqV.step Blue.WcqV.init))
+        = [some 5, some 5, some 9]
+    ∧ (List.range 3).map (Blue.ConcLogQueues.retOf (toyFsyncQueueRun.foldl Blue.WcqV.step Blue.WcqV.init))
+        = [some 1, some 1, some 0]
+    ∧ (Blue.ConcLog.acked s 0, Blue.ConcLog.acked s 1, Blue.ConcLog.failed s 2) = (true, true, true)
+    ∧ readAll toyParams (Blue.LogCrash.crashA s.file) 3 0 = some [[1, 2, 3, 4, 5], [6, 7, 8, 9]] := by decide
+
+/-- … and the theorems apply to it (their hypotheses are discharged) -/
+example := wcqv_run_meets_spec toyWriteQueueRun
+example := wcqv_one_batch_at_a_time (toyWriteQueueRun.take 3 |>.foldl Blue.WcqV.step Blue.WcqV.init) (.lead 0 2) (by decide)
+example := wcqv_work_cleared_only_by_finish (toyWriteQueueRun.take 7 |>.foldl Blue.WcqV.step Blue.WcqV.init) (.finish 0)
+  (by decide) (by decide)
+example := wcqv_returns_core_output toyWriteQueueRun (fun c => [5, 5, 9][c]?) (by decide) 1 5 (by decide)
+example := conclog_of_two_wcqv_runs good_toy (lim := 12) (by decide) toyWriteQueueRun toyFsyncQueueRun toyBufs [1, 0, 2]
+  toyOks (by decide) (by decide) (by decide) (by decide) (by decide) (by decide)
+example := queue_returns_are_conclog_answers good_toy (lim := 12) (by decide) toyWriteQueueRun toyFsyncQueueRun toyBufs
+  [1, 0, 2] toyOks (by decide) (by decide) (by decide) (by decide) (by decide) (by decide) (by decide) (by decide)
+-- END ConcLogQueues
+
 end Blue.Props.C12
 
 #print axioms Blue.Props.C12.params_from_source
@@ -596,3 +734,9 @@ end Blue.Props.C12
 #print axioms Blue.Props.C12.conc_log_failed_sync_not_acked
 #print axioms Blue.Props.C12.conc_log_answered_once
 #print axioms Blue.Props.C12.conc_log_answer_persists
+#print axioms Blue.Props.C12.wcqv_run_meets_spec
+#print axioms Blue.Props.C12.wcqv_one_batch_at_a_time
+#print axioms Blue.Props.C12.wcqv_work_cleared_only_by_finish
+#print axioms Blue.Props.C12.wcqv_returns_core_output
+#print axioms Blue.Props.C12.conclog_of_two_wcqv_runs
+#print axioms Blue.Props.C12.queue_returns_are_conclog_answers
